@@ -146,6 +146,7 @@ class Interp:
     def __init__(self, prog, types, models, max_steps=400000):
         self.prog = prog; self.T = types; self.models = models; self.max_steps = max_steps
         self._resolve_cache = {}
+        self._upvar_cache = {}
         self._const_cache = {}
         self._by_last = {}
         for name, fs in prog.fns.items():
@@ -169,7 +170,7 @@ class Interp:
         if k == 'field':
             b = self.read(fr, p[1])
             if self._transparent(p):
-                return b.val if isinstance(b, Uninit) else b
+                return b
             if isinstance(b, (Adt, Closure)):
                 try:
                     return b.fields[p[2]]
@@ -327,32 +328,21 @@ class Interp:
 
     def _find_const(self, name):
         # promoted[k] of a function / associated consts printed with <impl at ...> paths
-        m = re.match(r'^(.*)::promoted\[(\d+)\]$', name)
-        if m:
-            base = _strip_generics(m.group(1))
-            last = base.split('::')[-1]
-            hits = []
-            for k, c in self.prog.consts.items():
-                km = re.match(r'^(.*)::promoted\[(\d+)\]$', k)
-                if km and km.group(2) == m.group(2):
-                    kb = _strip_generics(km.group(1))
-                    if kb.split('::')[-1] == last and _tail_match(kb, base):
-                        hits.append(c)
-            if len(hits) == 1:
-                return hits[0]
-            if hits:
-                raise Unsupported('ambiguous promoted const ' + name)
-            return None
-        last = name.split('::')[-1]
-        hits = [c for k, c in self.prog.consts.items() if k.split('::')[-1] == last and not k.endswith(']')]
+        want = path_tail(name)
+        hits = [c for k, c in self.prog.consts.items() if path_tail(k) == want]
+        if not hits:
+            hits = [c for k, c in self.prog.consts.items() if path_tail(k) and want[-len(path_tail(k)):] == path_tail(k) and
+                    all(sg[:1].isupper() for sg in want[:-len(path_tail(k))])]
         if len(hits) == 1:
             return hits[0]
-        # several (bitflags consts live in two impls): prefer the one whose path mentions the same type/module
-        stem = _strip_generics(name)
-        hits2 = [c for k, c in self.prog.consts.items() if k.split('::')[-1] == last and k.split('::')[0] == stem.split('::')[0]]
-        if hits2:
-            return hits2[0]
-        return hits[0] if hits else None
+        if len(hits) > 1:
+            # bitflags consts exist once per impl (PatchFlags / InternalBitFlags): prefer the path sharing the first segment
+            stem = _strip_generics(name).split('::')[0]
+            h2 = [c for k, c in self.prog.consts.items() if path_tail(k) == want and k.split('::')[0] == stem]
+            if len(h2) >= 1:
+                return h2[0]
+            raise Unsupported('ambiguous const ' + name)
+        return None
 
     # ------------------------------------------------------------ operands / rvalues
     def operand(self, ctx, fr, op):
@@ -440,13 +430,52 @@ class Interp:
                 return self.utf8_len(ctx, v)
             return len(v)
         if k == 'closure':
-            return Closure(rv[1], [self.operand(ctx, fr, o) for _, o in rv[2]], [n for n, _ in rv[2]])
+            fields = [self.operand(ctx, fr, o) for _, o in rv[2]]
+            names = [n for n, _ in rv[2]]
+            extra = self._missing_upvars(fr.fn, rv)
+            for loc in extra:
+                fields.append(fr.env[loc]); names.append('?' + loc)
+            return Closure(rv[1], fields, names)
         if k == 'array' or k == 'tuple':
             return [self.operand(ctx, fr, o) for o in rv[1]]
         if k == 'repeat':
             v = self.operand(ctx, fr, rv[1])
             return [clone_val(v) for _ in range(int(re.match(r'\d+', rv[2].replace('const ', '')).group(0)))]
         raise Unsupported('rvalue ' + repr(rv)[:200])
+
+    def _missing_upvars(self, fn, rv):
+        """rustc's MIR printer zips captured *variables* with the aggregate's operands, so when one variable is captured
+        through several places (`self.options.x`, `self.helper`: edition-2021 disjoint captures) the trailing operands are not
+        printed. They are the temporaries assigned right after the last printed operand; recovered here and verified by type
+        against the upvar types the closure body declares."""
+        key = (fn.name, rv[1])
+        hit = self._upvar_cache.get(key)
+        if hit is not None:
+            return hit
+        body = self.prog.closures.get(rv[1])
+        need = {}
+        if body is not None:
+            for m in re.finditer(r"\('field', \('deref', \('local', '_1'\)\), (\d+), '((?:[^'\\\\]|\\\\.)*)'", repr(list(body.blocks.values()))):
+                need[int(m.group(1))] = m.group(2)
+            for m in re.finditer(r"\('field', \('local', '_1'\), (\d+), '((?:[^'\\\\]|\\\\.)*)'", repr(list(body.blocks.values()))):
+                need[int(m.group(1))] = m.group(2)
+        have = len(rv[2])
+        extra = []
+        if need and max(need) >= have:
+            last = rv[2][-1][1]
+            if last[0] != 'const' and last[1][0] == 'local':
+                n0 = int(last[1][1][1:])
+                for idx in range(have, max(need) + 1):
+                    loc = '_%d' % (n0 + 1 + idx - have)
+                    ty = fn.locals.get(loc)
+                    want = need.get(idx)
+                    if ty is None or (want is not None and _norm_ty(ty) != _norm_ty(want)):
+                        raise Unsupported('cannot recover unprinted closure upvar %d of %s (%s vs %s)' % (idx, rv[1], ty, want))
+                    extra.append(loc)
+            else:
+                raise Unsupported('cannot recover unprinted closure upvars of ' + rv[1])
+        self._upvar_cache[key] = extra
+        return extra
 
     def utf8_len(self, ctx, s):
         n = 0
@@ -567,7 +596,7 @@ class Interp:
         cands = self._by_last.get(last)
         if not cands:
             return None
-        if 'VueJsxTransformVisitor' in c:
+        if 'VueJsxTransformVisitor' in callee:
             if c.startswith('<VueJsxTransformVisitor<C> as'):
                 hits = [f for f in cands if f.name.startswith('<impl at visitor/src/lib.rs') and 'VisitMut' in f.sig or f.name.startswith('<impl at visitor/src/lib.rs')]
             else:
@@ -725,6 +754,13 @@ class Interp:
         raise Unsupported('function name %s is ambiguous (%d)' % (name, len(hits)))
 
 
+def _norm_ty(t):
+    t = re.sub(r"'\w+ ", '', t)
+    t = re.sub(r'\b(std|core|alloc)::(\w+::)*', '', t)
+    t = re.sub(r'\bswc_core::(\w+::)*', '', t)
+    return t.replace(' ', '')
+
+
 def _model_key(callee):
     return re.sub(r'<[^<>]*>', '<_>', _strip_generics(callee))[:120]
 
@@ -750,6 +786,45 @@ def _strip_generics(s):
             continue
         out.append(s[i]); i += 1
     return ''.join(out)
+
+
+def split_path(p):
+    """split a rust path at top-level '::' (respecting <...>, (...), {...})"""
+    out = []; d = 0; cur = []
+    i = 0
+    n = len(p)
+    while i < n:
+        c = p[i]
+        if c in '<({[':
+            d += 1
+        elif c in ')}]':
+            d -= 1
+        elif c == '>' and i > 0 and p[i - 1] not in '-=':
+            d -= 1
+        if c == ':' and d == 0 and p[i:i + 2] == '::':
+            out.append(''.join(cur)); cur = []; i += 2
+            continue
+        cur.append(c); i += 1
+    out.append(''.join(cur))
+    return out
+
+
+_TAIL_CACHE = {}
+
+
+def path_tail(p):
+    """the item-path part that definition sites and use sites print identically: segments without impl heads,
+    module names, the visitor type and turbofish groups."""
+    r = _TAIL_CACHE.get(p)
+    if r is None:
+        segs = []
+        for sg in split_path(p):
+            if not sg or sg.startswith('<') or sg in Interp._MODS or sg in ('VueJsxTransformVisitor', '_', 'crate'):
+                continue
+            segs.append(sg)
+        r = tuple(segs)
+        _TAIL_CACHE[p] = r
+    return r
 
 
 def _tail_match(defname, callname):
